@@ -237,6 +237,15 @@ def r6_resumed_layers_start_in_order(ctx, rep, R='C10.R6'):
     if P_ is None:
         rep.assume('C10.R6 not applied: resume_tests has no parameter named layers')
         return
+    # the canonical order arrives in that parameter: it is neither re-bound nor re-ordered in place
+    from .common import param_untouched
+    touched = param_untouched(fi.node, P_)
+    rep.check(touched is None, R, 'resume_tests uses the layers in the order given',
+              'the ordered list of layers handed to resume_tests is re-bound or re-ordered (%s): the order in '
+              'which the layers are started and shown depends on something else than their names and bases '
+              '(number of tests, ...)' % (norm(getattr(touched, '_parent', touched))[:70] if touched is not None else ''),
+              key='resume:order-given', func=fi.qualname,
+              where=ctx.where(fi, touched if touched is not None else fi.node))
     # the thread containers: L.<put>(X) inside "for ... in layers" where X is / aliases a Thread(...)
     def is_thread(e, nid, depth=0):
         if isinstance(e, ast.Call) and (dotted(e.func) or '').split('.')[-1] == 'Thread':
